@@ -17,6 +17,7 @@
 #include "StrList.h"
 
 #include <cerrno>
+#include <climits>
 
 static void httpHeaderPutStrvf(HttpHeader * hdr, Http::HdrType id, const char *fmt, va_list vargs);
 
@@ -84,7 +85,14 @@ int
 httpHeaderParseInt(const char *start, int *value)
 {
     assert(value);
-    *value = atoi(start);
+    errno = 0;
+    const auto parsed = strtol(start, nullptr, 10);
+    if (errno == ERANGE || parsed < INT_MIN || parsed > INT_MAX) {
+        debugs(66, 2, "out-of-range int header field near '" << start << "'");
+        *value = 0;
+        return 0;
+    }
+    *value = static_cast<int>(parsed);
 
     if (!*value && !xisdigit(*start)) {
         debugs(66, 2, "failed to parse an int header field near '" << start << "'");
